@@ -71,10 +71,22 @@ package federation
 //@ family fedentity [C20,C04]
 //@   noescape
 //@   ensures panicked ==> calls(Recover) == 1
+// C20 "missing keys ... element i is the entity resolved from representation i or null with an error": a batch
+// resolver is only handed representations that went through the resolver lookup themselves, without error and with
+// the same result as the rest of the batch (D20: several @key directives; D33: a representation without its key was
+// resolved from an empty key). The partition loop looks at every representation, the batch is narrowed to the
+// survivors before anything is unmarshalled from it.
 //@ family fedmany [C20,C04]
+//@   replay fedMissingKey.go.tmpl
 //@   noescape
 //@   ensures panicked ==> calls(Recover) == 1
 //@   at `assign list[*]` requires idx == reps[i].index && len(typedReps) == len(reps)
+//@   ghost narrowed = false
+//@   at! `append(same, rep)` requires err == nil && name == resolverName
+//@   at! `append(other, rep)` requires err == nil && name != resolverName && resolverName != ""
+//@   at! `assign reps` requires rhs0 == same
+//@   at! `assign reps` ghost narrowed = true
+//@   callsite FindMany*: requires narrowed
 
 // A resolver is selected only if not ALL of its key fields are null: the flag can only stay true, never become
 // true again after a non-null key field was seen.
